@@ -50,8 +50,8 @@ TIMES = ["12:10:11", "12:10:12"]
 RULE = ("worlds of 1..6 .rtdc files with basin definitions between them: all "
         "directed graphs (self references, k-cycles, chains, diamonds) over "
         "<= 2 files in quick; in thorough every graph over <= 3 files in 6 "
-        "attribute variants, every 4-file graph with <= 7 edges once and "
-        "3000 sampled denser ones; random graphs up to 6 files; run identifiers equal / "
+        "attribute variants, every 4-file graph with <= 6 edges once and "
+        "1500 sampled denser ones; random graphs up to 6 files; run identifiers equal / "
         "prefix / unrelated / derived from date+time+setup / absent; basin "
         "kinds file, internal, http, s3, dcor and the type/format mixes "
         "remote+hdf5, internal+hdf5; locations absolute, relative to the "
@@ -491,6 +491,24 @@ def observe(case, base, port):
             ids.add(99)      # some other local file
     res["touched"] = sorted(ids)
     return res
+
+
+def has_cycle(case):
+    """Is there a directed cycle among the files (existing targets)?"""
+    n = len(case["files"])
+    adj = [set(t for b in f["basins"] if b["kind"] != "internal"
+               for how, t in b["locs"] if how != "nowhere" and t < n)
+           for f in case["files"]]
+    state = [0] * n
+
+    def visit(i):
+        state[i] = 1
+        for j in adj[i]:
+            if state[j] == 1 or (state[j] == 0 and visit(j)):
+                return True
+        state[i] = 2
+        return False
+    return any(state[i] == 0 and visit(i) for i in range(n))
 
 
 def observe_in_child(case, base, port):
@@ -1052,7 +1070,11 @@ def run_one(case):
         urlroot = "%s/c%d/data" % (_W["rel"], _W["n"])
         paths, keyorder = write_world(case, base, (port, urlroot))
         t0 = time.time()
-        res = observe_in_child(case, base, (port, urlroot))
+        if has_cycle(case):
+            res = observe_in_child(case, base, (port, urlroot))
+        else:
+            # no reference cycle: the in-process timer is enough
+            res = observe(case, base, (port, urlroot))
         res["elapsed"] = round(time.time() - t0, 2)
     finally:
         shutil.rmtree(base, ignore_errors=True)
@@ -1136,7 +1158,7 @@ def _dbg(msg):
 
 def check_cases(run, cases, record=True):
     results = run_cases(run.scratch, cases,
-                        budget=1000 if run.thorough else 200,
+                        budget=900 if run.thorough else 200,
                         max_timeouts=12 if run.thorough else 3)
     _dbg("stage 1 done")
     skipped = set(k for k, r in enumerate(results) if r[0]["status"] == 4)
@@ -1225,17 +1247,17 @@ def run(run):
         dense = []
         for mask in range(1 << 16):
             edges = [p for k, p in enumerate(pairs) if mask >> k & 1]
-            if len(edges) > 7:
+            if len(edges) > 6:
                 dense.append(edges)
                 continue
             cases.append(graph_case(4, edges, (
                 run.rng.choice(["hdf5", "hdf5", "http"]),
                 run.rng.choice(["equal", "odd-one", "random"])), run.rng))
-        for edges in run.rng.sample(dense, 3000):
+        for edges in run.rng.sample(dense, 1500):
             cases.append(graph_case(4, edges, (
                 run.rng.choice(["hdf5", "hdf5", "http"]),
                 run.rng.choice(["equal", "odd-one"])), run.rng))
-    nrand = 6000 if run.thorough else 330
+    nrand = 4000 if run.thorough else 330
     for _ in range(nrand):
         cases.append(gen_case(run.rng))
     check_cases(run, cases)
